@@ -77,7 +77,7 @@ CHECKS["C02"] = dict(
 CHECKS["C13"] = dict(
     level="exploration",
     technique="property-based testing with a recording Callback: generated programs and store sinks x local executors x optimize x compute_arrays_in_parallel x batch_size; recorded event sequence checked against the finalized plan's task counts and an ordering grammar",
-    text="Every case computes a generated program (multi-output ops, rechunks, region stores, fused plans, array creation) with a Callback that records all events. The check requires one compute_start first / compute_end last, exactly one operation_start before and one operation_end after all task_end events of each operation, task_end.num_tasks summing to primitive_op.num_tasks == len(list(pipeline.mappable)), FinalizedPlan.num_tasks equal to the sum, and the event op set equal to the plan's op set - on single-threaded, threads (parallel on/off, batch sizes), processes (sampled) and the schedule-owning executor.",
+    text="Every case computes a generated program (multi-output ops, rechunks, region stores, fused plans, array creation) with a Callback that records all events. The check requires one compute_start first / compute_end last, exactly one operation_start before and one operation_end after all task_end events of each operation, task_end.num_tasks summing to primitive_op.num_tasks == len(list(pipeline.mappable)), FinalizedPlan.num_tasks equal to the sum, and the event op set equal to the plan's op set; on the in-process executors the task bodies actually invoked are counted per operation (pipelines wrapped by a counting function) and must equal the advertised numbers, a second registered callback must see the same events, and in half of the cases the same arrays are computed a second time in the same process and judged again - on single-threaded, threads (parallel on/off, batch sizes), processes (sampled) and the schedule-owning executor.",
     design_ref="DESIGN.md section 3 C13",
     note="use_backups stays off here (C08). Event order is the order in which callbacks were invoked in the driver process.",
 )
@@ -85,7 +85,7 @@ CHECKS["C13"] = dict(
 CHECKS["C16"] = dict(
     level="exploration",
     technique="property-based testing with a store trace and a recording executor: generated programs covering the whole op table are built, planned, visualized, repr'd and lazily stored under a tracing intermediate store or a not-yet-existing work_dir; any write, chunk read, directory creation or executor entry before a documented trigger is a violation",
-    text="After building every node and after each drawn lazy action (plan with several optimizers, visualize to a scratch file, repr/_repr_html_, store/to_zarr(compute=False), rechunk, metadata access) the trace must contain no set/delete/chunk read, the work directory must still be absent or empty, lazy targets must not exist and the executor must not have been entered. Then one documented trigger (compute, eager store/to_zarr, __array__, scalar conversions) is exercised and must enter the executor.",
+    text="After building every node and after each drawn lazy action (plan with several optimizers, visualize to a scratch file, repr/_repr_html_, store/to_zarr(compute=False) into fresh targets, not-yet-existing region targets and over a path that already holds an array of the same or another shape, rechunk, metadata access) the trace must contain no set/delete/chunk read, the work directory must still be absent or empty, lazy targets must not exist and the executor must not have been entered. Then one documented trigger (compute, eager store/to_zarr, __array__, scalar conversions) is exercised and must enter the executor.",
     design_ref="DESIGN.md section 3 C16",
     note="API coverage of the op table versus cubed.__all__ is reported in the evidence. Inputs opened with from_zarr live in a separate store whose metadata may be read.",
 )
@@ -109,7 +109,7 @@ CHECKS["C19"] = dict(
 CHECKS["C09"] = dict(
     level="fault_enumeration",
     technique="fault enumeration over generated programs: every crash point at task granularity (schedule-owning executor) and at chunk-write granularity (exception inside the store's set) is executed, followed by compute(resume=True); oracle from the clean run, the post-crash store listing and the resumed run's trace/callbacks",
-    text="For each generated program a clean run yields T tasks and W chunk writes; all T+1+W crash points are executed (evenly sampled to 48 for large plans); dedicated shards use multi-output operations, where one task writes a chunk of each output and a crash can separate the two writes. After every crash the resumed computation must either refuse before any task (storage that cannot report completeness) or return the clean run's values; operations skipped must have had all output chunks present (checked against the stored grid metadata), complete operations must not be re-run (except array creation / 0-d outputs), and the resumed run must not delete or change pre-existing chunks.",
+    text="For each generated program a clean run yields T tasks and W chunk writes; all T+1+W crash points are executed (evenly sampled to 48 for large plans), the crashing run executing each operation's tasks in plan order or in a drawn permutation (so the chunks present after the crash are an arbitrary subset, not only a prefix), the resumed run on a drawn executor (sequential, single-threaded, threads, threads with compute_arrays_in_parallel or batch_size), and in a third of the programs the resumed run is crashed again and resumed a second time; dedicated shards use multi-output operations, where one task writes a chunk of each output and a crash can separate the two writes. After every crash the resumed computation must either refuse before any task (storage that cannot report completeness) or return the clean run's values; operations skipped must have had all output chunks present (checked against the stored grid metadata), complete operations must not be re-run (except array creation / 0-d outputs), and the resumed run must not delete or change pre-existing chunks.",
     design_ref="DESIGN.md section 3 C09",
     note="Crash = exception at a task boundary or inside a chunk write; completed writes are durable. Pre-existing fully initialized user targets are outside the domain (resume defines complete as all chunks present).",
 )
@@ -117,7 +117,7 @@ CHECKS["C09"] = dict(
 CHECKS["C10"] = dict(
     level="exploration",
     technique="model-based stateful property testing (Hypothesis RuleBasedStateMachine): API call histories over a pool of related lazy arrays with a NumPy shadow per array, checksummed inputs and expected images of all earlier store targets; every step is a JSON record applied by one interpreter, so failing histories replay without Hypothesis",
-    text="Rules: new input, derive (shared op table), compute (subset, optimize, resume, executor or configured default), store/to_zarr of any member incl. ancestors of others and already stored members (eager/lazy; fresh, group, existing with equal or different chunks, region; the same member to a second target while its first store is still pending), compute earlier lazy stores, change the default executor, plan/visualize. After every step a drawn member must compute to the NumPy value fixed when it was built, all inputs must be byte-identical and every earlier target must still hold its image.",
+    text="Rules: new input, derive (shared op table), compute (subset, optimize, resume, executor or configured default), store/to_zarr of any member incl. ancestors of others and already stored members (eager/lazy; fresh, group, existing with equal or different chunks, region; the same member to a second target while its first store is still pending), a derived member computed alone and then again together with some of its ancestors with resume on, compute earlier lazy stores, change the default executor, plan/visualize. A compute of several members that fails although each computes alone is a violation. After every step a drawn member must compute to the NumPy value fixed when it was built, all inputs must be byte-identical and every earlier target must still hold its image.",
     design_ref="DESIGN.md section 3 C10",
     note="Histories bounded (14 / 25 steps); single process; no external mutation of stores. Failures of a step itself are C17's business, the history continues.",
 )
@@ -125,7 +125,7 @@ CHECKS["C10"] = dict(
 CHECKS["C03"] = dict(
     level="exploration",
     technique="property-based measurement: generated (operation template, chunk geometry, dtype, compressor, data class, optimizer mode) cases run on real Zarr inputs with a sequential executor that measures the tracemalloc peak of every task of every operation; a violation must reproduce in three measurements and is attributed to a root cause by re-measuring uncompressed / unfused",
-    text="About 80 operation templates (public operations, fused chains, fusions that keep two or three predecessor outputs alive, widening reductions over a short axis; every template is visited in every run) on 2-8 MB chunks for every dtype (square, skinny with 8/4/2-wide chunks, wide, uneven geometries; six dtypes; compressor none/default; compressible/incompressible data; optimize off/default/fuse-all). For every task: tracemalloc peak <= projected_mem + 0.7 MB (reserved_mem = 0, noise 40-80 kB). The full 9,936-cell domain was surveyed once; nine root causes of under-projection (seven from that survey, two found after adding multi-predecessor fusion templates and 2-wide chunk geometries) are recorded as known findings with corpus probes and kept out of the sampled campaign by construction, so the search continues in the remaining region.",
+    text="About 80 operation templates (public operations, fused chains, fusions that keep two or three predecessor outputs alive, widening reductions over a short axis; every template is visited in every run) on 2-8 MB chunks for every dtype (square, skinny with 8/4/2-wide chunks, wide, uneven geometries; six dtypes; compressor none/default; compressible/incompressible data; optimize off/default/fuse-all; a narrowing chain also under the legacy pairwise optimizer). For every task: tracemalloc peak <= projected_mem + 0.7 MB (reserved_mem = 0, noise 40-80 kB). The full 9,936-cell domain was surveyed once; nine root causes of under-projection (seven from that survey, two found after adding multi-predecessor fusion templates and 2-wide chunk geometries) are recorded as known findings with corpus probes and kept out of the sampled campaign by construction, so the search continues in the remaining region.",
     design_ref="DESIGN.md section 3 C03",
     note="tracemalloc sees Python/NumPy allocations in all threads, not allocations inside C codecs. Peaks depend on how zarr's IO thread interleaves reads, hence the three-measurement rule. Mutations that only remove slack from a still-valid bound are invisible by design.",
 )
@@ -139,7 +139,7 @@ CHECKS["C15"] = dict(
 )
 CHECKS["C08"] = dict(
     level="fault_enumeration",
-    technique="fault/straggle-script enumeration and property-based testing of the real async_map_unordered + real tenacity retry wrapper on a virtual-time asyncio loop with a scripted pool (scripts per input and submission; reference model of the retry/backup contract); exhaustive enumeration of small configurations in the thorough tier; end-to-end IO-fault injection on one chunk key of small real computations on the threads executor",
+    technique="fault/straggle-script enumeration and property-based testing of the real async_map_unordered + real tenacity retry wrapper on a virtual-time asyncio loop with a scripted pool (scripts per input and submission; reference model of the retry/backup contract); exhaustive enumeration of small configurations in the thorough tier; end-to-end IO-fault injection on one chunk key of small real computations on the threads executor, compute() called plainly or from inside a running event loop",
     text="For each script (n<=40 inputs; per original/backup submission a completion class fast / exactly-simultaneous-with-twin / 3x-100x straggler and k<=retries+2 leading failures) x use_backups x batch_size {None,<n,=n,>n} x retries {0,1,2} x list/iterator x processing order of same-round completions, the run must end normally with exactly one delivery per input, each backed by a submission that succeeded, or raise the scripted task error for an input none of whose submissions can succeed; never hang (virtual-time hang detector), never another exception; <=2 submissions per input, backups only if enabled; attempts per submission = min(k+1, retries+1). Thorough enumerates completely all scripts over a 3x3 alphabet for 1-2 scripted inputs (+10 fillers) under every option combination and for 3 scripted inputs under a reduced option set (2.3M scripts). Tier B: f in 0..4 injected read/write faults on a single-task chunk key: f<=2 => NumPy values and one task-end per planned task; f>=3 => OSError after exactly 3 attempts.",
     design_ref="DESIGN.md section 3 C08, section 2.5",
     note="The worker pool and the clock are replaced (module attribute cubed.runtime.asyncio.time, restored). All attempts of one submission happen at its completion instant. Future hashes are creation numbers so set iteration is reproducible. Empty input excluded. Nothing requires a backup to be launched. Remote executors are not covered.",
@@ -147,10 +147,10 @@ CHECKS["C08"] = dict(
 
 CHECKS["C07"] = dict(
     level="exploration",
-    technique="harness-owned schedules of the real scheduler: generated plan-shaped DAGs x per-task virtual durations run by the real async_map_dag on a virtual-time event loop with a scripted pool (and by the real single-threaded executor), causal ordering oracle; plus end-to-end generated programs on the threads/single-threaded executors over a tracing store with injected per-key write latency (premature-read / fill-value detection from the trace)",
+    technique="harness-owned schedules of the real scheduler: generated plan-shaped DAGs x per-task virtual durations run by the real async_map_dag on a virtual-time event loop with a scripted pool (and by the real single-threaded executor), causal ordering oracle; plus end-to-end generated programs on the threads, single-threaded and processes executors over a tracing store (for the processes executor a picklable wrapper whose copies in the worker processes append to per-pid trace files with system-wide monotonic timestamps) with injected per-key write latency (premature-read / fill-value detection from the trace)",
     text="Tier A decides the scheduling part: because the harness owns every completion time, each generated duration assignment is one interleaving the real async_map_dag (aiostream merge, visit_nodes / visit_node_generations, batching, backups, retries) admits; every task submission must follow the completion of all tasks of all ancestor operations, array creation first. Tier B runs real plans with delayed chunk writes: a chunk read that misses (silent fill value), precedes the completed write of its key, or precedes the array's metadata is a violation; finalized plans must order every operation after create-arrays; a run that fails only under the parallel schedule is attributed to the schedule.",
     design_ref="DESIGN.md section 3 C07, section 2.5",
-    note="Tier A models storage latency as task duration. Tier B samples OS interleavings only through injected latency (threads executor; the processes executor shares async_map_dag). Thread-pool internals are not explored.",
+    note="Tier A models storage latency as task duration. Tier B samples OS interleavings only through injected latency; events of different worker processes are ordered by CLOCK_MONOTONIC. Thread-pool internals are not explored.",
 )
 
 CHECKS["C20"] = dict(
